@@ -192,8 +192,30 @@ func (n *Node) Sum() int {
 	return s
 }
 
+func (n *Node) Zero() int {
+	if n == nil {
+		return 40
+	}
+	return 1
+}
+
+func (n *Node) Deep() int {
+	if n == nil {
+		return n.Zero() + n.Len() + 1
+	}
+	return n.Next.Deep() + 100
+}
+
+func (n *Node) Self() *Node {
+	return n
+}
+
 func main() {
 	var p *Node
+	fmt.Println(p.Deep(), p.Self().Zero(), p.Self().Self().Len())
+	d := p.Deep
+	q := p.Self()
+	fmt.Println(d(), q.Zero(), (&Node{V: 1}).Deep())
 	fmt.Println(p.Len(), p.Hello(), p.Sum())
 	l := &Node{V: 1, Next: &Node{V: 2}}
 	fmt.Println(l.Len(), l.Sum(), l.Next.Next.Len(), l.Next.Next.Hello())
